@@ -18,7 +18,7 @@ from . import refmachine as rm
 PROP = 'C07'
 
 
-def universe(size):
+def universe(size, with_stacked=False):
     from . import bridge
     P = bridge.P
     C = list(bridge.repo_universe(size, extra_meta=True))
@@ -37,6 +37,11 @@ def universe(size):
     from frozendict import frozendict
     N = P.Instantiate(P._or(P.MetaVar(1), P.MetaVar(2)), frozendict({2: P.Symbol('a')}))
     C += [P.Implies(N, P.Implies(N, N)), P.Implies(P._or(P.MetaVar(1), P.MetaVar(2)), N), P.Implies(P.MetaVar(0), N)]
+    # stacked pending substitutions on a metavariable fresh in both element variables, as consequents (generalisation asks
+    # for freshness in the consequent)
+    if with_stacked:
+        from . import c06
+        C += [P.Implies(P.Symbol('c'), st) for st in c06.stacked([P.MetaVar(0, e_fresh=(P.EVar(0), P.EVar(1)))])]
     C += [P.MetaVar(2, negative=(P.SVar(0),)), P.Implies(P.MetaVar(2, negative=(P.SVar(0),)), P.MetaVar(0)),
           P.Implies(P.neg(P.MetaVar(0)), P._and(P.EVar(0), P.EVar(1))), P.Implies(P.MetaVar(0), P.ESubst(P.MetaVar(1), P.EVar(0), P.EVar(1))),
           P.Implies(P.MetaVar(0), P.SSubst(P.MetaVar(1), P.SVar(0), P.EVar(0))),
@@ -102,7 +107,7 @@ def gen_chunk(args):
     from . import bridge
     from proof_generation.proved import Proved
     P = bridge.P
-    C = universe(size)
+    C = universe(size, True)
     out = {'evals': 0, 'applicable': 0, 'returned': 0, 'viol': []}
     its = interpreters()
     for i in rows:
@@ -163,7 +168,7 @@ def inst_chunk(args):
     from . import bridge
     from proof_generation.proved import Proved
     P = bridge.P
-    C = universe(size)
+    C = universe(size, True)
     plugs = [P.EVar(0), P.EVar(1), P.SVar(0), P.MetaVar(1), P.neg(P.MetaVar(0)), P.Exists(0, P.EVar(0)),
              P._and(P.EVar(0), P.MetaVar(2)), P.neg(P.SVar(0)), P.bot()]
     # for premises that carry a pending substitution: a notation that BINDS the substituted variable around its argument
@@ -263,7 +268,7 @@ def main(argv=None) -> int:
     rows = list(range(len(C)))
     merge(chk, par.pmap(mp_chunk, [(ch, size) for ch in par.chunks(rows, n)]), 'mp_', agg)
     gsize = 4 if thorough else 3
-    grow = list(range(len(universe(gsize))))
+    grow = list(range(len(universe(gsize, True))))
     merge(chk, par.pmap(gen_chunk, [(ch, gsize) for ch in par.chunks(grow, n)]), 'gen_', agg)
     merge(chk, par.pmap(inst_chunk, [(ch, gsize) for ch in par.chunks(grow, n)]), 'inst_', agg)
     # query histories: the hand-picked premises once more, each time in ONE process, forwards and backwards (the oracle is
